@@ -90,6 +90,11 @@ CLAIMED = {
   ref="DESIGN.md §6 C13",
   note="Partial: the BC encoders (line fits, refinement, float code) are not modelled - the bounds are established on generated inputs by the oracle. Known findings: F13 (two colours with equal channel sums collapse to one colour under the Uniform metric at every quality) and F14 (Fast quality exceeds the quantisation step on two-colour blocks).",
   tech="Coq proof (decoder-model lemmas, ring arithmetic) + implementation-only encode/decode oracle"),
+ "C16": dict(
+  text="Coq theorems: level l of a dimension d has size max(1, d >> l) and the chain reaches 1 exactly at level log2 d (so a full chain has log2(max(w,h)) + 1 levels); for ANY filter whose outputs are rounded weighted means with non-negative weights (nearest, box, triangle) every output lies within the range of its inputs exactly, hence a constant channel stays constant and a fully opaque alpha stays opaque. The implementation (Encoder with automatic generation, all 12 colour formats, 5 filters, straight alpha on/off, aligned/unaligned/strided input) is checked by an oracle on level count and sizes, constant colour, opacity, range, channel independence, layout independence and generation started at a hand-written level.",
+  ref="DESIGN.md §6 C16",
+  note="Partial: the resampling kernels (external `resize` crate, f32) and the premultiply/unpremultiply steps are not modelled; the flat-colour, opacity and range clauses are proved for the mathematical filter class and checked on the implementation by the oracle. Mitchell and Lanczos3 have negative lobes, so only the constant-colour and opacity clauses apply to them, as the property says.",
+  tech="Coq proof (N/Z arithmetic, induction over weight lists) + implementation-only oracle"),
  "C19": dict(
   text="Coq theorems over the implementation's regenerated tables: for every header from which a format is detected (all valid DXGI codes x alpha modes incl. the premultiplied special cases, every FourCC, every mask pixel format; all other fields symbolic) the pixel layout derived from the header equals the pixel layout of the detected format, so layouts computed with or without a decoder coincide; every implemented format's pixel layout is within the bounds the layout/script theorems assume; size multiples are advertised exactly for the bi-planar formats and equal their sub-sampling; advertised bits per pixel are exact for fixed-size pixels and an upper bound per whole block otherwise. Observed behaviour is tied to the tables by differential execution: header detection sweep here, bytes consumed by decoding in C06, sizes accepted by encoding in C10. The dithering clauses are checked by an implementation-only oracle over all encodable formats.",
   ref="DESIGN.md §6 C19",
